@@ -66,10 +66,15 @@ def state_wire(tensor, lay):
 
 
 def mat_wire(arr):
-    a = np.asarray(arr)
-    if a.ndim == 1:
-        return [[fx(x) for x in a]]
-    return [[fx(x) for x in r] for r in a]
+    a = np.asarray(arr, dtype=np.float64)        # float32 -> float64 is exact
+    y = a * 64.0
+    if not np.all(np.isfinite(y)) or not np.array_equal(y, np.rint(y)):
+        bad_ = a[~(np.isfinite(y) & (y == np.rint(y)))]
+        raise Inexact(f"{bad_.flat[0]!r} is not a multiple of 1/64")
+    w = y.astype(np.int64)
+    if w.ndim == 1:
+        return [w.tolist()]
+    return w.tolist()
 
 
 def result_wire(info, sd_names, addrs):
